@@ -405,10 +405,63 @@ def wrapper_histories(tier: str, rng: random.Random):
     return bad, n
 
 
+def check_lazy_designation() -> List[dict]:
+    """Lazy stands for whatever its thunk designates *when a value is validated*, recurrent or not: it can be built
+    before its target exists (forward references between definitions), building it does not call the thunk, and after
+    the name the thunk reads has been rebound it stands for the new target - bare and inside other validators."""
+    from koda_validate import IntValidator, Lazy, ListValidator, OptionalValidator, StringValidator
+    from koda_validate.maybe import MaybeValidator
+    from koda import Just
+    from ..corr import drive
+    bad: List[dict] = []
+
+    def report(what):
+        if not bad:
+            bad.append({"kind": "oracle", "signature": "C05:lazy-designation", "what": what, "replay_case": {"direct": "lazy-designation"}})
+    for recurrent in (True, False):
+        for wrap_name, wrap, wx, unwrap in (("bare", lambda l: l, lambda x: x, lambda w: w), ("inside a list", lambda l: ListValidator(l), lambda x: [x], lambda w: w[0]),
+                                            ("inside an optional", lambda l: OptionalValidator(l), lambda x: x, lambda w: w),
+                                            ("inside a maybe", lambda l: MaybeValidator(l), lambda x: Just(x), lambda w: w.val)):
+            for mode in ("sync", "async"):
+                reg: dict = {}
+                calls: list = []
+
+                def thunk():
+                    calls.append(1)
+                    return reg["target"]
+                where = f"Lazy(thunk, recurrent={recurrent}) {wrap_name} ({mode})"
+                try:
+                    lz = Lazy(thunk, recurrent=recurrent)
+                    v = wrap(lz)
+                except BaseException as e:  # noqa
+                    report(f"{where}: building it before its target is defined raised {e!r}")
+                    continue
+                if calls:
+                    report(f"{where}: building it called the thunk {len(calls)} time(s)")
+                run_ = (lambda x: v(x)) if mode == "sync" else (lambda x: drive(v.validate_async(x)))
+                for target, good, wrong in ((IntValidator(), 5, "s"), (StringValidator(), "s", 5), (ListValidator(IntValidator()), [1], "s")):
+                    reg["target"] = target
+                    n0 = len(calls)
+                    try:
+                        rg, rw = run_(wx(good)), run_(wx(wrong))
+                    except BaseException as e:  # noqa
+                        report(f"{where} with the thunk now designating {target!r}: raised {e!r}")
+                        break
+                    alone_g, alone_w = target(good), target(wrong)
+                    if not rg.is_valid or unwrap(rg.val) != alone_g.val or rw.is_valid:
+                        report(f"{where} with the thunk now designating {target!r}: {good!r} gave {rg!r} and {wrong!r} gave {rw!r}; the target itself gives {alone_g!r} and {alone_w!r}")
+                        break
+                    if len(calls) == n0:
+                        report(f"{where}: two validations did not consult the thunk at all")
+                        break
+    return bad
+
+
 def run(tier: str, rng: random.Random, proof_ok: bool) -> dict:
     rep = run_families("C05", cases(tier, rng), rng, oracle, nontrivial)
     rep["violations"] += check_result_map()
     rep["violations"] += check_odd_values()
+    rep["violations"] += check_lazy_designation()
     oe = odd_equality_violation("C05")
     if oe:
         rep["violations"].append(oe)
@@ -426,6 +479,12 @@ def replay(path: str) -> int:
         for b in bad:
             print("property violated:", b["what"])
         print("property holds for library objects as values" if not bad else "")
+        return 1 if bad else 0
+    if isinstance(rc, dict) and rc.get("direct") == "lazy-designation":
+        bad = check_lazy_designation()
+        for b in bad:
+            print("property violated:", b["what"])
+        print("property holds: Lazy stands for what its thunk designates at validation time" if not bad else "")
         return 1 if bad else 0
     if isinstance(rc, dict) and rc.get("direct") == "result-map":
         bad = check_result_map()
